@@ -153,6 +153,18 @@ func verifyFunction(P *Program, db *SpecDB, R *Resolver, fs *FuncSpec, fn *ssa.F
 	for _, c := range fs.Needs {
 		reach = tAnd(reach, ctx.evalBool(c.E))
 	}
+	// quantified preconditions become top-level facts (see FnEnc.assume)
+	{
+		var plain []Term
+		for _, c := range splitConj(reach.S) {
+			if strings.Contains(c, "(forall ") || strings.Contains(c, "(exists ") {
+				e.asserts = append(e.asserts, c)
+			} else {
+				plain = append(plain, Term{c, SBool})
+			}
+		}
+		reach = tAnd(plain...)
+	}
 	reach = e.defineAlways("entry", reach)
 	res.entryReach = reach
 	f.run(reach, args, frees, st)
